@@ -1,7 +1,7 @@
 (* C09 for Swift: every definition under prefix + id.renamed (the ...Inner helper struct included),
    every mentioned id spelled prefix + id unless it is a generic parameter of the item (verbatim); the
    helper struct is referred to as prefix + renamed + variant + Inner with the enum's generic
-   parameters it uses.  write_const is todo!(): a program with consts generates nothing. *)
+   parameters it uses.  write_const returns Err(Unsupported): a program with consts generates nothing. *)
 From Coq Require Import List Bool String Permutation.
 From TS Require Import Model.Str Model.Outcome Model.Unicode Model.Types Model.Parse Model.Reconcile Model.TopsortAlgo Model.Topsort
                        Model.Lang.Common Model.Lang.Decl Model.Lang.Swift Spec.C09Spec.
